@@ -4,6 +4,7 @@ import CogentModel.Spec.PairHMM
 import CogentModel.Model.GapMerge
 import CogentModel.Model.Hirschberg
 import CogentModel.Model.ClassicHMM
+import CogentModel.Model.Progressive
 open CogentModel CogentModel.PairHMM
 
 def optRat (j : J) : Except String (Option Rat) :=
@@ -47,8 +48,45 @@ def exGapsJ : Except String GapMerge.Gaps → J
 /-- exact value rounded down to a multiple of 2^-1200 (the BEGIN row after ten squarings has ~10^5-bit terms) -/
 def roundRat (q : Rat) : Rat := ((q * ((2 : Rat) ^ 1200)).floor : Rat) / ((2 : Rat) ^ 1200)
 
+/-! progressive column merge (`Model/Progressive.lean`) -/
+def optNat (j : J) : Except String (Option Nat) :=
+  match j with
+  | J.null => pure none
+  | _ => do pure (some (← j.toNat))
+def posOfJ (j : J) : Except String Progressive.Pos := J.toPairOf optNat optNat j
+def optNatJ : Option Nat → J
+  | none => J.null
+  | some n => J.ofNat n
+def posJ (p : Progressive.Pos) : J := J.arr [optNatJ p.1, optNatJ p.2]
+def rowOfStr (s : String) : Progressive.Row Char := s.toList.map fun c => if c = '-' then none else some c
+def rowStr (r : Progressive.Row Char) : String := String.ofList (r.map fun c => c.getD '-')
+partial def gtreeOfJ (j : J) : Except String (Progressive.GTree Char) := do
+  match ← (← j.get "k").toStr with
+  | "leaf" => pure (.leaf (← (← j.get "seq").toStr).toList)
+  | _ => pure (.node (← gtreeOfJ (← j.get "l")) (← gtreeOfJ (← j.get "r")) (← (← j.get "ap").toListOf posOfJ))
+
 def handle (cmd : String) (j : J) : Except String J :=
   match cmd with
+  | "pognode" => do
+    -- one internal node: child widths, the DP's aligned positions, the children's rows
+    let n1 ← (← j.get "n1").toNat
+    let n2 ← (← j.get "n2").toNat
+    let ap ← (← j.get "ap").toListOf posOfJ
+    let fixed ← (← j.get "fixed").toBool
+    let left ← (← j.get "left").toListOf J.toStr
+    let right ← (← j.get "right").toListOf J.toStr
+    let full := Progressive.pogTraceback n1 n2 ap
+    let rows := left.map (fun r => rowStr (Progressive.mergeRow fixed false full (rowOfStr r))) ++
+                right.map (fun r => rowStr (Progressive.mergeRow fixed true full (rowOfStr r)))
+    pure (J.obj [("valid", J.bool (Progressive.apValid n1 n2 ap 0 0)), ("full", J.arr (full.map posJ)),
+                 ("rows", J.arr (rows.map J.str))])
+  | "progtree" => do
+    -- a whole guide tree with the DP outcome at every internal node
+    let t ← gtreeOfJ (← j.get "tree")
+    let fixed ← (← j.get "fixed").toBool
+    pure (J.obj [("valid", J.bool t.valid), ("width", J.ofNat t.width),
+                 ("rows", J.arr ((t.rows fixed).map fun r => J.str (rowStr r))),
+                 ("leaves", J.arr (t.leaves.map fun s => J.str (String.ofList s)))])
   | "viterbi" => do
     let (h, n, m, loc) ← parseHMM j
     let r := if loc then viterbiLocal h n m else viterbiGlobal h n m
